@@ -47,6 +47,12 @@ def case_rigid(kind, rot_idx, origin_idx, n_points=None):
             body.velocity_collection[2, 0] = 0
             body.omega_collection[:2, 0] = 0
         grid.compute_lag_grid_position_field()
+        if bi % 2 == 1:
+            # history: the force transfer (which only reads the markers) comes between the position update and the
+            # velocity evaluation, and the velocity is evaluated twice
+            lagf = (np.cos(1.1 * np.arange(d * grid.num_lag_nodes) + 0.7) * 1.5).reshape(d, grid.num_lag_nodes)
+            grid.transfer_forcing_from_grid_to_body(body_flow_forces=np.zeros((3, 1)), body_flow_torques=np.zeros((3, 1)), lag_grid_forcing_field=lagf)
+            grid.compute_lag_grid_velocity_field()
         grid.compute_lag_grid_velocity_field()
         states += 1
         Q = body.director_collection[:, :, 0]
